@@ -28,30 +28,31 @@ STATS_ADTS = ("roughenough::stats::ClientStats", "roughenough::stats::aggregated
 
 
 def describe(prog, t, depth=0):
-    """Position-free textual descriptor of a term (locals by name)."""
+    """Position-free and name-free textual descriptor of a term: locals appear by type, parameters by position, so that
+    renaming a variable does not change a site key."""
     if not isinstance(t, tuple) or not t:
         return str(t)
-    if depth > 5:
-        return "…"
+    if depth > 4:
+        return ".."
     k = t[0]
     if k in ("obj", "loopvar"):
         fn = prog.fns.get(t[1])
         if fn is not None:
-            n = fn.locals[t[2]].get("name")
-            return n if n else "tmp:" + fn.locals[t[2]]["ty"].split("::")[-1]
-        return k
+            ty = fn.locals[t[2]]["ty"]
+            return "<%s>" % short_ty(ty)
+        return "<?>"
     if k == "int":
         return str(t[1])
     if k == "param":
-        fn = prog.fns.get(t[1])
-        n = fn.locals[t[2]].get("name") if fn else None
-        return n or "param%d" % t[2]
+        return "arg%d" % t[2]
     if k == "call":
+        if depth >= 2:
+            return "%s(..)" % callee_name(t[1])
         return "%s(%s)" % (callee_name(t[1]), ",".join(describe(prog, a, depth + 1) for a in t[2]))
     if k == "field":
         return "%s.%s" % (describe(prog, t[1], depth + 1), t[2])
     if k == "vfield":
-        return describe(prog, t[1], depth + 1)
+        return describe(prog, t[1], depth)
     if k == "len":
         return "len(%s)" % describe(prog, t[1], depth + 1)
     if k == "index":
@@ -59,12 +60,12 @@ def describe(prog, t, depth=0):
     if k == "bin":
         return "(%s %s %s)" % (describe(prog, t[2], depth + 1), t[1].replace("WithOverflow", ""), describe(prog, t[3], depth + 1))
     if k == "cast":
-        return describe(prog, t[3], depth + 1)
+        return describe(prog, t[3], depth)
     if k == "agg":
         lab = str(t[1]).split("::")[-1]
         return "%s{%s}" % (lab, ",".join(describe(prog, a, depth + 1) for a in t[2]))
     if k == "phi":
-        return "phi(%s)" % ",".join(describe(prog, a, depth + 1) for a in t[1])
+        return "phi(%s)" % ",".join(sorted(describe(prog, a, depth + 1) for a in t[1]))
     if k == "enum":
         return "%s::%s" % (t[1].split("::")[-1], t[2])
     if k == "bytes":
@@ -72,8 +73,18 @@ def describe(prog, t, depth=0):
     if k == "str":
         return repr(t[1][:24])
     if k == "reader":
-        return describe(prog, t[1], depth + 1)
+        return describe(prog, t[1], depth)
     return k
+
+
+def short_ty(ty):
+    ty = ty.replace("&mut ", "&")
+    base = ty.split("<")[0].split("::")[-1]
+    if "<" in ty:
+        inner = ty[ty.index("<") + 1:].rsplit(">", 1)[0]
+        inner = ",".join(x.strip().split("<")[0].split("::")[-1] for x in inner.split(",")[:2])
+        return "%s<%s>" % (base, inner)
+    return base
 
 
 def load_audited():
@@ -422,6 +433,9 @@ class NoPanic:
         desc = ",".join(describe(P, o) for o in ops)
         if cond[0] == "int" and bool(cond[1]) == t["expected"]:
             return self.rec(fn, b, kind, desc, "proved", "condition is constant", trivial=True)
+        if kind.startswith("other:MisalignedPointerDereference") or kind.startswith("other:NullPointerDereference"):
+            return self.rec(fn, b, kind.split("{")[0].split("(")[0].strip(), "compiler-inserted", "typed",
+                            "debug-build pointer check on a reference/Box the compiler just created (never null or misaligned)", trivial=True)
         if B.infeasible(b):
             return self.rec(fn, b, kind, desc, "proved", "block is infeasible under the branch facts")
         # operand type: from the operand places
